@@ -1,2 +1,5 @@
 def run(ctx):
-    return ""
+    """C02.plan: the resolved plan is internally consistent (reindex strategy vs method vs reduction kind)."""
+    from . import plan_proofs
+
+    return plan_proofs.run(ctx, which=("predicates", "validate_reindex", "get_chunk"), pid="C02")
